@@ -31,6 +31,9 @@ CHECKS.update({
  "C12": ("5.12", "Obligation tracking per (node, height, view): union of RequestTx arguments vs OnTransaction supplies under the property's precondition, in simulations biased to differing mempools, invalid transactions, slow supply and cached next-view proposals (the nested case)."),
  "C13": ("5.13", "Broadcast / Block.Sign / PreBlock.SetData of observers and flagged validators are violations at the instant they happen, in simulations that place the flagged validator at the primary position at Start and after Resets."),
  "C14": ("5.14", "Every tape is executed twice against clocks that differ by a constant offset (seconds to decades, both signs, on both sides of the machine's wall clock); canonical traces (timestamps relative to the epoch, hashes as ordinals, timer durations verbatim) must be identical."),
+ "C08": ("5.8", "Fault-free synchronous simulations (all honest, latency <= delta << T, exact timers) in which the tape permutes and duplicates the deliveries of every round and delays one node's Reset by up to 1.5 T so that next-height traffic is cached: every validator decides every height in view 0 on the same block and nobody broadcasts a change-view or recovery request (block index 1 of a ledger starting at 0 is outside the precondition, see DESIGN O1)."),
+ "C09": ("5.9", "Bounded liveness in GST simulations: <=F validators silent from the start (incl. the first primaries), arbitrary cut sets/instants/durations, amnesia restarts at arbitrary points (between calls, inside Broadcast, inside ProcessBlock); after faults stop every live validator must advance 3 heights within 400 T; with silence from the start on a synchronous network the deciding view is <= the number of silent validators. One protocol-level known finding (L1)."),
+ "C15": ("5.15", "Every proposal of an honest-code primary is compared with an expectation recomputed from the clock reading and pool content the library obtained in that very call, under clock skew, backward/forward clock steps, unaligned clocks and increments 1, 7, 1000, 1e6, 7e6, 1e9, 999999937 ns; the primary's own block must carry the same values."),
 })
 PLANNED = {}
 NOT_APPLICABLE = {
